@@ -42,7 +42,7 @@ def strategy(tier):
              "cmd": cmd, "flag": draw(st.sampled_from(["", "", "-q", "-v", "-q -v", "-v -q"])),
              "damage": draw(st.sampled_from(["none", "none", "flip", "remove"])),
              "bystanders": draw(st.lists(st.sampled_from([".torrent", "NAME.torrent", "notes.txt", "outdir/.torrent", "outdir/other.torrent",
-                                                          "outdir/NAME.torrent", "m.torrent.bak"]), unique=True, max_size=4)),
+                                                          "outdir/NAME.torrent", "m.torrent.bak", ".torrent/", "outdir/.torrent/"]), unique=True, max_size=4)),
              "content_path": draw(st.sampled_from(["root", "parent"])),
              "meta_kind": draw(st.sampled_from(["own", "own", "ref"]))}
         if cmd in ("create", "new"):
@@ -114,6 +114,15 @@ def run_case(case):
             if b == "NAME.torrent" and case["cmd"] == "rename":
                 continue
             if len(os.path.basename(p).encode("utf-8")) > 255:
+                continue
+            if b.endswith("/"):
+                # a *directory* of that name (the writability probe uses the fixed name .torrent)
+                if not os.path.lexists(p.rstrip("/")):
+                    os.makedirs(p.rstrip("/"))
+                    with open(os.path.join(p, "kept.txt"), "wb") as fd:
+                        fd.write(b"bystander")
+                continue
+            if os.path.isdir(p):
                 continue
             with open(p, "wb") as fd:
                 fd.write(b"bystander " + b.encode())
